@@ -394,7 +394,7 @@ def register_extend(reg):
         pb, ob, rev = c.partition_by, c.order_by, c.reverse
         args = [c.parsed_ops, pb, ob, rev]
         triv = trivial_formula(eng, st, c.self)
-        src = VScalar(c.field(c.self, "sources").arr[0], NODE)
+        src = VScalar(c.old_field(c.self, "sources").arr[0], NODE)
         fwd = ufun(eng, "build_extend_parsed_", zargs(eng, st, [src] + args))
         plain = ufun(eng, "new_ExtendNode", zargs(eng, st, [c.self] + args))
         out = [("eliminated-order_rows-forwards-every-argument", z3.Implies(triv, r.z == fwd))]
@@ -403,19 +403,19 @@ def register_extend(reg):
         merged = st.ghost.get("last_merge_result")
         # windowed-ness of the NEW step as ExtendNode.__init__ decides it: an aggregating op, partition_by=1, partition columns or order columns
         new_windowed = z3.Or(iw(S)(c.parsed_ops.dom, c.parsed_ops.val), z3.BoolVal(is_one(pb)), plen(pb) > 0, plen(ob) > 0)
-        same_spec = z3.And(is_ext, plen(pb) == c.field(me, "partition_by").n,
-                           eng.zbool(__import__("pyvc.engine", fromlist=["veq_safe"]).veq_safe(eng, ob, c.field(me, "order_by"), st, None)),
-                           eng.zbool(__import__("pyvc.engine", fromlist=["veq_safe"]).veq_safe(eng, rev, c.field(me, "reverse"), st, None)))
+        same_spec = z3.And(is_ext, plen(pb) == c.old_field(me, "partition_by").n,
+                           eng.zbool(__import__("pyvc.engine", fromlist=["veq_safe"]).veq_safe(eng, ob, c.old_field(me, "order_by"), st, None)),
+                           eng.zbool(__import__("pyvc.engine", fromlist=["veq_safe"]).veq_safe(eng, rev, c.old_field(me, "reverse"), st, None)))
         if merged is None:
             out.append(("without-a-merge-the-new-step-is-built-on-this-step-from-every-argument", z3.Implies(z3.Not(triv), r.z == plain)))
             return out
         mnode = ufun(eng, "new_ExtendNode", zargs(eng, st, [src, merged] + [pb, ob, rev]))
         out.append(("merged-node-sits-on-this-step's-source-with-the-merged-assignments-and-the-same-window", z3.Implies(z3.Not(triv), z3.Or(r.z == plain, r.z == mnode))))
-        same_part = (eng.zbool(__import__("pyvc.engine", fromlist=["veq_safe"]).veq_safe(eng, pb, c.field(me, "partition_by"), st, None))
-                     if not is_one(pb) else c.field(me, "partition_by").n == 0)
+        same_part = (eng.zbool(__import__("pyvc.engine", fromlist=["veq_safe"]).veq_safe(eng, pb, c.old_field(me, "partition_by"), st, None))
+                     if not is_one(pb) else c.old_field(me, "partition_by").n == 0)
         out.append(("merges-only-steps-with-the-same-partition-order-and-reverse", z3.Implies(z3.And(z3.Not(triv), r.z == mnode, r.z != plain), z3.And(same_spec, same_part))))
         wname = "merges-only-steps-of-the-same-windowed-ness" + ("[partition_by=1]" if is_one(pb) else "[partition_by is a column list]")
-        out.append((wname, z3.Implies(z3.And(z3.Not(triv), r.z == mnode, r.z != plain), new_windowed == c.field(me, "windowed_situation").z)))
+        out.append((wname, z3.Implies(z3.And(z3.Not(triv), r.z == mnode, r.z != plain), new_windowed == c.old_field(me, "windowed_situation").z)))
         return out
 
     def merge_apply(eng, st, argmap, node):
@@ -438,6 +438,28 @@ def register_extend(reg):
     # inside extend_parsed_ the merge helper is abstracted; its semantic contract (merged = sequential) is the obligation of try_to_merge_ops itself
     reg.contracts["try_to_merge_ops"].apply = merge_apply
 
+    # ---- region contract: the merge decision itself (the suffix of extend_parsed_ starting at `if isinstance(self, ExtendNode):`).
+    # The statements before it (argument normalisation by _work_col_group_arg, the disjointness checks, the forward through an eliminated
+    # order_rows) are NOT part of the region; what they establish enters as the region's precondition: partition_by is 1 or a list,
+    # order_by and reverse are lists, and this step is not an eliminable order_rows.
+    import ast as _ast
+
+    def merge_region(fn):
+        for i, stmt in enumerate(fn.body):
+            if isinstance(stmt, _ast.If) and _ast.unparse(stmt.test) == "isinstance(self, ExtendNode)":
+                return fn.body[i:]
+        return []
+
+    def region_entry(c):
+        me = VScalar(c.self.z, T.obj("ExtendNode"))
+        # len() of a Python list is never negative (a fact of the encoding, not of the code)
+        return [z3.Not(trivial_formula(c.eng, c.st, c.self))] + [c.field(me, f).n >= 0 for f in ("partition_by", "order_by", "reverse")]
+
+    for (tag, pbt) in (("[partition_by=1]", Ty_py(1)), ("[partition_by=list]", COLS)):
+        reg.add(Contract(key="ViewRepresentation.extend_parsed_:merge-decision" + tag, file=F, qualname="ViewRepresentation.extend_parsed_", cls="ViewRepresentation",
+                         params={"self": NODE, "parsed_ops": OPS, "partition_by": pbt, "order_by": COLS, "reverse": COLS}, returns=NODE,
+                         requires=requires, ensures=ens, entry_assume=region_entry, body_select=merge_region, names=("extend_parsed_:merge-decision" + tag,)))
+
     for (tag, pbt) in (("[partition_by=None]", Ty_py(None)), ("[partition_by=1]", Ty_py(1)), ("[partition_by=list]", COLS)):
         reg.add(Contract(key="ViewRepresentation.extend_parsed_" + tag, file=F, qualname="ViewRepresentation.extend_parsed_", cls="ViewRepresentation",
                          params={"self": NODE, "parsed_ops": OPS, "partition_by": pbt, "order_by": T.opt(COLS), "reverse": T.opt(COLS)}, returns=NODE,
@@ -449,4 +471,5 @@ def Ty_py(v):
     return Ty("py", (v,))
 
 
+REGION_KEYS = ["ViewRepresentation.extend_parsed_:merge-decision" + t for t in ("[partition_by=1]", "[partition_by=list]")]
 EXTEND_KEYS = ["ViewRepresentation.extend_parsed_" + t for t in ("[partition_by=None]", "[partition_by=1]", "[partition_by=list]")]
